@@ -68,6 +68,21 @@ fn case(words: &[u16]) -> Case {
     let module = d.below(3);
     let kind = d.below(7) as u8;
     let warm = d.chance(1, 2);
+    // In half of the cases an ancestor announces, in a ROA of its own, the address space it delegated
+    // to one of its descendants: such payload overlaps the resources of a CA that the fault may get
+    // rejected, and only the unsafe-vrps policy `reject` may remove it.
+    if d.chance(1, 2) {
+        let non_roots: Vec<usize> = (0..sc.cas.len()).filter(|i| sc.cas[*i].parent.is_some()).collect();
+        if !non_roots.is_empty() {
+            let x = non_roots[d.below(non_roots.len())];
+            let anc = if d.chance(1, 2) { root_of(&sc, x) } else { sc.cas[x].parent.unwrap() };
+            let r = own_res(x);
+            let prefixes: Vec<(std::net::IpAddr, u8, Option<u8>)> = vec![(std::net::IpAddr::V4(r.v4[0].0), r.v4[0].1, None), (std::net::IpAddr::V6(r.v6[0].0), r.v6[0].1, Some(56))];
+            if let Some(v) = sc.cas[anc].versions.get_mut(0) {
+                v.objs.push(Obj { kind: ObjKind::RoaRaw { asn: 64990, prefixes }, not_after: 86400 * 30, fault: None });
+            }
+        }
+    }
     Case { sc, module, kind, warm }
 }
 
@@ -168,7 +183,36 @@ fn prop_opt(c: &Case, info: &mut CaseInfo, run_known: bool) -> Verdict {
             None => true,
         }
     };
+    // address space on the certificates of the affected CAs: under `reject` (and only then) payload of
+    // other CAs overlapping it may disappear when such a CA is rejected
+    let overlaps_affected = |it: &MItem| -> bool {
+        let MItem::Origin(o) = it else { return false };
+        let (lo, hi) = addr_range(o.bits(), o.len, o.is_v4());
+        aff.iter().any(|a| {
+            let res = cert_res(sc, *a);
+            res.v4.iter().any(|(ba, bl)| {
+                let (blo, bhi) = addr_range((u32::from(*ba) as u128) << 96, *bl, true);
+                o.is_v4() && lo <= bhi && blo <= hi
+            }) || res.v6.iter().any(|(ba, bl)| {
+                let (blo, bhi) = addr_range(u128::from(*ba), *bl, false);
+                !o.is_v4() && lo <= bhi && blo <= hi
+            })
+        })
+    };
+    let mut overlapping_unrelated = false;
+    for it in clean.iter().chain(faulty.iter()) {
+        if !in_affected_space(it) && overlaps_affected(it) {
+            overlapping_unrelated = true;
+        }
+    }
+    if overlapping_unrelated {
+        info.class("unrelated_payload_overlaps_affected_resources");
+    }
     for it in clean.symmetric_difference(&faulty) {
+        if !in_affected_space(it) && sc.cfg.unsafe_vrps == 0 && overlaps_affected(it) {
+            info.class("removed_by_unsafe_vrps_reject");
+            continue;
+        }
         if !in_affected_space(it) {
             return Verdict::fail(
                 "C41/unrelated-payload-changed",
@@ -181,7 +225,7 @@ fn prop_opt(c: &Case, info: &mut CaseInfo, run_known: bool) -> Verdict {
 
 pub fn run(ctx: &Ctx, rep: &mut Report, replay: Option<&serde_json::Value>) {
     rep.rule("pairs of runs over identical E-rpki trees (1-2 TALs, up to 8 CAs over 3 rsync modules) from identical pre-states (empty or warmed cache): one clean, one where a chosen module is unreachable / serves garbage / serves truncated files / withholds everything but manifests / serves files with flipped bytes / additionally publishes a CA chain deeper than max-ca-depth / contains a CA certificate whose SIA claims a publication point below the issuer's manifest file; metamorphic oracle: the run succeeds and every item owned by a CA that is neither published in the broken module nor a descendant of one is served identically in both runs; non-trivial = the broken module hosts a CA and an unrelated CA with payload exists; plus 64 (thorough 1000) cases with two TALs whose trust-anchor certificates sit in different modules, a cold cache, one of these modules broken and mostly one validation thread (a TAL without any usable trust anchor); distinct by serialised case");
-    rep.assume("slots of different CAs never overlap, so the unsafe-VRP filter can only remove items of affected CAs (C08 covers overlapping resources)");
+    rep.assume("own slots of different CAs never overlap; in half of the cases an ancestor additionally announces a descendant's delegated space in its own ROA — such overlapping payload may differ between the runs only under unsafe-vrps = reject (the documented filter), never under warn or accept");
     ctx.shrink_iters.store(100, std::sync::atomic::Ordering::Relaxed);
     if let Some(v) = replay {
         if v.get("sub").and_then(|s| s.as_str()) == Some("rrdp") {
